@@ -1396,6 +1396,9 @@ class Machine:
 
     def call_fn(self, cfg, fr, f, args, dest, ret_bb, t):
         st = cfg.st
+        if f.get('ctor'):
+            c = f['ctor']
+            return self.finish_call(cfg, dest, ret_bb, Adt(c['adt'], c['variant'], args))
         names = [f.get('rpath'), f.get('path')]
         handler = None
         for n in names:
@@ -1510,6 +1513,9 @@ class Machine:
 
     def call_fn_post(self, cfg, fr, f, args, dest, ret_bb, t, post):
         # Evaluate callee (primitive or inlined) and apply `post` to its result.
+        if f.get('ctor'):
+            c = f['ctor']
+            return self.finish_call(cfg, dest, ret_bb, post(self, cfg, Adt(c['adt'], c['variant'], args)))
         names = [f.get('rpath'), f.get('path')]
         handler = None
         for n in names:
@@ -1555,7 +1561,8 @@ class Machine:
         inst = self.prog.get(key) if key else None
         if inst is not None and f.get('rkind', 'item') == 'item':
             return self.push(cfg, inst, args, dest, ret_bb, post)
-        cfg.st.flags.add('opaque:' + (f.get('rpath') or f.get('path')))
+        pure = not any(isinstance(a, Ref) and a.mut for a in args)
+        cfg.st.flags.add(('purecall:' if pure else 'opaque:') + (f.get('rpath') or f.get('path')))
         self.note_opaque(f)
         val = self.opaque_result(cfg, f, args, t)
         return self.finish_call(cfg, dest, ret_bb, post(self, cfg, val))
